@@ -792,6 +792,9 @@ func genBodies(repo, out string) {
 				default:
 					continue
 				}
+				if fd, ok := dd.(*ast.FuncDecl); ok && fd.Body != nil {
+					stripLogging(fd.Body)
+				}
 				var sb strings.Builder
 				cfg := printer.Config{Mode: printer.UseSpaces | printer.TabIndent, Tabwidth: 8}
 				if err := cfg.Fprint(&sb, token.NewFileSet(), dd); err != nil {
@@ -805,6 +808,81 @@ func genBodies(repo, out string) {
 	if err := os.WriteFile(out, []byte(strings.Join(blocks, "\n")), 0644); err != nil {
 		fatal(err)
 	}
+}
+
+// stripLogging removes pure logging statements from a body before it is fingerprinted: calls of
+// x.logger.{Debug,Info,Warn,Error}[f] and `defer utils.Elapsed(...)` whose arguments contain no call. A changed
+// log text is not a change of the modelled behaviour; Panicf / Fatalf are control flow and stay.
+func stripLogging(b *ast.BlockStmt) {
+	isLog := func(c *ast.CallExpr) bool {
+		sel, ok := c.Fun.(*ast.SelectorExpr)
+		if !ok {
+			return false
+		}
+		pure := true
+		for _, a := range c.Args {
+			ast.Inspect(a, func(n ast.Node) bool {
+				if ce, ok := n.(*ast.CallExpr); ok {
+					// conversions and len() are harmless, anything else may have effects
+					if id, ok := ce.Fun.(*ast.Ident); ok && (id.Name == "len" || id.Name == "string") {
+						return true
+					}
+					if exprStr(ce.Fun) == "time.Now" || exprStr(ce.Fun) == "fmt.Sprintf" {
+						return true
+					}
+					pure = false
+				}
+				return true
+			})
+		}
+		if !pure {
+			return false
+		}
+		x := exprStr(sel.X)
+		switch sel.Sel.Name {
+		case "Debugf", "Infof", "Warnf", "Errorf", "Debug", "Info", "Warn", "Error":
+			return strings.HasSuffix(x, "logger") || strings.HasSuffix(x, ".logger")
+		case "Elapsed":
+			return x == "utils"
+		}
+		return false
+	}
+	var walk func(n ast.Node)
+	filter := func(list []ast.Stmt) []ast.Stmt {
+		var out []ast.Stmt
+		for _, st := range list {
+			switch x := st.(type) {
+			case *ast.ExprStmt:
+				if c, ok := x.X.(*ast.CallExpr); ok && isLog(c) {
+					continue
+				}
+			case *ast.DeferStmt:
+				if isLog(x.Call) {
+					continue
+				}
+			}
+			walk(st)
+			out = append(out, st)
+		}
+		return out
+	}
+	walk = func(n ast.Node) {
+		ast.Inspect(n, func(m ast.Node) bool {
+			switch x := m.(type) {
+			case *ast.BlockStmt:
+				x.List = filter(x.List)
+				return false
+			case *ast.CaseClause:
+				x.Body = filter(x.Body)
+				return false
+			case *ast.CommClause:
+				x.Body = filter(x.Body)
+				return false
+			}
+			return true
+		})
+	}
+	b.List = filter(b.List)
 }
 
 func main() {
